@@ -5,3 +5,4 @@ import PasskeyVerif.Props.C01
 import PasskeyVerif.Props.C12
 import PasskeyVerif.Props.C13
 import PasskeyVerif.Props.C04
+import PasskeyVerif.Props.C05
